@@ -657,6 +657,45 @@ func (c13) Check(c *core.Case, env *core.Env, res zzsim.Result, v *core.Verdict)
 				if active < 1 {
 					cause = "acked-before-registered"
 				}
+				// The same defect seen from the other side: when this
+				// subscriber was acknowledged, another local subscriber of the
+				// same (connection, signal) was in the first-subscriber path
+				// (its subscribe overlapped the acknowledgement) with a
+				// registerEvent not yet answered - the registration confirmed
+				// at that moment was the previous one, whose removal a
+				// concurrent cancel had already decided. The event was emitted
+				// before that registerEvent was answered, at a moment the
+				// client held no confirmed registration it had not asked to
+				// remove.
+				if cause == "other" {
+					pendingFirst := false
+					for _, r := range cw.regs[s.sig] {
+						if (r.replyRead != 0 && r.replyRead < s.ackRet) || (r.replyRead != 0 && r.replyRead < e.start) {
+							continue
+						}
+						for _, s2 := range st.subs {
+							if s2 != s && s2.conn == s.conn && s2.sig == s.sig && s2.ackCall != 0 && s2.ackCall < s.ackRet &&
+								(s2.ackRet == 0 || s2.ackRet > s.ackRet) && s2.ackCall <= r.reqSeq && (s2.ackRet == 0 || r.reqSeq <= s2.ackRet) {
+								pendingFirst = true
+							}
+						}
+					}
+					atEvent := 0
+					for _, r := range cw.regs[s.sig] {
+						if r.ok && r.replyRead != 0 && r.replyRead < e.start {
+							atEvent++
+						}
+					}
+					for _, u := range cw.unregs[s.sig] {
+						if u < e.start {
+							atEvent--
+						}
+					}
+					if pendingFirst && atEvent < 1 {
+						cause = "acked-before-registered"
+						env.Probe("acked-while-first-subscriber-was-registering")
+					}
+				}
 			}
 			bad("missed-event/"+cause, "%s did not receive event %d (emitted [%d..%d]); received %v", name, n, e.start, e.end, s.evs)
 			break
